@@ -119,7 +119,7 @@ theorem WInv.step {P : Params} {written : List Blk} {W : WSt} (h : WInv P writte
   have hrest : ∀ (loc : Nat),
       (∀ e ∈ W.effs ++ blockEffs b loc, (∃ loc, e.e = .start loc) ∨ (∃ k m, e.e = .sparse k m) ∨
               (∃ k v y, e.e = .word k v ∧ y ∈ written ++ [b] ∧ isFB y = false ∧ y.data ≠ [] ∧ y.inode = some e.id ∧ y.index = k)) ∧
-      (∀ e ∈ W.effs ++ blockEffs b loc, ∃ y ∈ written ++ [b], y.inode = some e.id) := by
+      (isFB b = false → ∀ e ∈ W.effs ++ blockEffs b loc, ∃ y ∈ written ++ [b], isFB y = false ∧ y.inode = some e.id) := by
     intro loc
     constructor
     · intro e hmem
@@ -132,11 +132,11 @@ theorem WInv.step {P : Params} {written : List Blk} {W : WSt} (h : WInv P writte
         · exact Or.inl ⟨_, h1⟩
         · exact Or.inr (Or.inl ⟨_, _, h1⟩)
         · exact Or.inr (Or.inr ⟨_, _, b, h1, List.mem_append_right _ List.mem_cons_self, hnfb, hne, hi, rfl⟩)
-    · intro e hmem
+    · intro hnfb e hmem
       rcases List.mem_append.mp hmem with hmem | hmem
       · obtain ⟨y, hy, hyi⟩ := hids e hmem
         exact ⟨y, List.mem_append_left _ hy, hyi⟩
-      · exact ⟨b, List.mem_append_right _ List.mem_cons_self, (mem_blockEffs hmem).1⟩
+      · exact ⟨b, List.mem_append_right _ List.mem_cons_self, hnfb, (mem_blockEffs hmem).1⟩
   by_cases hisfb : isFB b = true
   · -- a fragment block, between two files
     obtain ⟨hfacts, hne⟩ := hfb hisfb
@@ -155,7 +155,15 @@ theorem WInv.step {P : Params} {written : List Blk} {W : WSt} (h : WInv P writte
       simp [hfacts.notSparse, hfbb, this]
     refine ⟨_, by unfold wStep; rw [hw'], ?_⟩
     simp only [hcond, if_true]
-    obtain ⟨hr1, hr2⟩ := hrest W.wr.file.length
+    obtain ⟨hr1, _⟩ := hrest W.wr.file.length
+    have hnoeff : blockEffs b W.wr.file.length = [] := by
+      have hfbb : hasFlag b.flags blkFragmentBlock = true := hisfb
+      simp [blockEffs, hfacts.notSparse, hfacts.notLast, hfbb]
+    have hr2 : ∀ e ∈ W.effs ++ blockEffs b W.wr.file.length, ∃ y ∈ written ++ [b], isFB y = false ∧ y.inode = some e.id := by
+      rw [hnoeff, List.append_nil]
+      intro e he
+      obtain ⟨y, hy, hyi⟩ := hids e he
+      exact ⟨y, List.mem_append_left _ hy, hyi⟩
     refine ⟨⟨ps', BlockWriter.fileStep acc (callOf b), recs ++ [⟨W.wr.file.length, [(callOf b).blk]⟩], ?_, ?_⟩, ?_, hr1, hr2⟩
     · rw [foldl_bOpen_snoc, ho, bOpen_fb hfacts]; exact hinv'
     · intro y hy hyfb
@@ -183,7 +191,8 @@ theorem WInv.step {P : Params} {written : List Blk} {W : WSt} (h : WInv P writte
       simp [hfbb]
     refine ⟨_, by unfold wStep; rw [hw'], ?_⟩
     simp only [hcond, Bool.false_eq_true, if_false]
-    obtain ⟨hr1, hr2⟩ := hrest loc
+    obtain ⟨hr1, hr2'⟩ := hrest loc
+    have hr2 := hr2' hnfb
     refine ⟨⟨ps', BlockWriter.fileStep acc (callOf b),
       BlockWriter.nextRecs recs (callOf b) (BlockWriter.fileStep acc (callOf b)) loc, ?_, ?_⟩, ?_, hr1, hr2⟩
     · rw [foldl_bOpen_snoc, ← nextOpened_callOf]; exact hinv'
